@@ -26,6 +26,9 @@ ASSUMPTIONS = ["try_integration=False (the default) in match.main",
                "'regular there' = every template of the chain is real-differentiable with non-zero derivative at the point it is applied to and the "
                "composed Jacobian is invertible; the real-power odd-root template a**(1/n) at a<0 (NaN under numpy) is therefore an excluded point (design F6)",
                "the Fisher matrix in derivs_comp<n>.dat is positive definite when the finiteness clause is demanded (a Hessian at a maximum-likelihood point)"]
+# tables whose committed version may stand in as a hand-written model when the translator cannot read the source;
+# value = the correspondence that then ties it to the code (common.prove / common.decide)
+FALLBACK = {'Match': 'real match.main on synthetic libraries (all chains) vs the Lean matchRow model, bit-exact decisions'}
 MODELLED = ["match.py:main", "simplifier.py:convert_params", "simplifier.py:load_subs"]
 LEANCHECKER = True
 
